@@ -382,7 +382,7 @@ Q_NAMES = ["q", "page", "size", "flag", "key", "sort", "limit", "verbose", "sinc
 WIRE_NAMES = ["page_size", "page_idx", "user-id", "k", "sz", "Q", "id2", "sort_by", "x|y"]
 FIELD_NAMES = ["Name", "PageSize", "PageIdx", "ID", "UserID", "URL", "X", "IsOK", "HTTPCode", "name2", "pageNo", "kind", "user_name", "n"]
 BASES = ["http://h.invalid", "http://h.invalid/api", "http://h.invalid/api/", "https://h.invalid:8443/v1/x"]
-HEADER_SETS = [None, None, [("accept", "text/plain")], [("x-env", "1"), ("X-Env", "2"), ("content-type", "a/b")], [("Authorization", "Bearer abc")], [("X-Env", "test"), ("Accept", "text/plain")],
+HEADER_SETS = [None, None, [("Accept", "*/*")], [("X-Mode", "-fast"), ("X-Q", "?a=b")], [("accept", "text/plain")], [("x-env", "1"), ("X-Env", "2"), ("content-type", "a/b")], [("Authorization", "Bearer abc")], [("X-Env", "test"), ("Accept", "text/plain")],
                [("X-Trace-Id", "t-1"), ("Content-Type", "application/xml"), ("X-B", "a b c")], [("Accept", "application/vnd.x+json")]]
 SAFE_STRINGS = ["abc", "u1", "A_b-9", "42"]
 UNSAFE_STRINGS = ["a b", "a/b", "x?y=z&w", "été", "50%25", "a+b", "#frag", "", "..", "a%2Fb", "k=v", "a&b", "sp ace/sl", "per%cent", "semi;colon", "q\"uote", "back\\slash", "~t:1,2"]
@@ -436,7 +436,7 @@ class C06Gen:
             names = names[:3]
         fields = []
         for n in names:
-            f = {"name": n, "type": rng.choice(SC_TYPES), "ptr": rng.random() < 0.3 and where != "other", "alias": None, "json": None}
+            f = {"name": n, "type": rng.choice(SC_TYPES), "ptr": rng.random() < 0.3, "alias": None, "json": None}
             r = rng.random()
             if r < 0.35:
                 f["alias"] = rng.choice(["size", "page_idx", "nm", "k2", "ID", "q"])
@@ -511,7 +511,7 @@ class C06Gen:
         # struct parameter
         want_struct = force.get("struct", verb in BODY_VERBS or rng.random() < 0.45)
         if want_struct:
-            where = force.get("where", rng.choice(["same", "same", "same", "sub"]))
+            where = force.get("where", rng.choice(["same", "same", "other", "sub"]))
             s = self.struct(where)
             m["structs"].append(s)
             pn = rng.choice([n for n in ["req", "body", "in", "u"] if n not in used])
@@ -567,10 +567,9 @@ class C06Gen:
                 sx.append([Q(p["name"]), ["s", Q(txt)]])
             elif kind == "struct":
                 s = p["struct"]
-                other = s.get("where") == "other"
                 if p.get("ptr") and rng.random() < nil_struct:
                     go_args.append("nil")
-                    sx.append([Q(p["name"]), "stvnil" if other else "stnil"])
+                    sx.append([Q(p["name"]), "stnil"])
                     if m["verb"] in BODY_VERBS:
                         jsonexpr = "(*%s)(nil)" % p["type"]
                     continue
@@ -584,12 +583,7 @@ class C06Gen:
                     fs.append([Q(f["name"]), ["s", Q(txt)]])
                 lit = "%s{%s}" % (p["type"], ", ".join(inits))
                 go_args.append(("&" if p.get("ptr") else "") + lit)
-                if other:
-                    # what fmt prints for the value with %v: {f1 f2 …} (no pointer fields in these structs)
-                    txts = [str(x[1][1]) for x in fs]
-                    sx.append([Q(p["name"]), ["stv", Q("{" + " ".join(txts) + "}")] + fs])
-                else:
-                    sx.append([Q(p["name"]), ["st"] + fs])
+                sx.append([Q(p["name"]), ["st"] + fs])
                 if m["verb"] in BODY_VERBS:
                     jsonexpr = ("&" if p.get("ptr") else "") + lit
             elif kind == "dict":
@@ -646,7 +640,7 @@ def kind_sexp(p):
         for f in p["struct"]["fields"]:
             tag = ("alias=%s" % f["alias"]) if f.get("alias") else ""
             fs.append(["f", Q(f["name"]), "ptr" if f.get("ptr") else "val", Q(tag)])
-        return ["structx" if p["struct"].get("where") == "other" else "struct"] + fs
+        return ["struct"] + fs        # wherever the type is declared (same file, another file, another package)
     return {"scalar": "scalar", "dict": "dict", "qual": "qual", "unsupported": "unsupported"}[k]
 
 
